@@ -154,6 +154,37 @@ func ruleX2(c *Ctx, rule string) {
 				r.Finding(rule, key, c.P.pos(fn.Pos()), "a context derived from a read-only context becomes writable ("+why+"): every traversal below a predicate can auto-create")
 			}
 		default:
+			if strings.HasPrefix(verdict, "by-param:") {
+				// the flag is an argument: Context methods calling it are judged through it above; any other caller must pass true
+				var pi int
+				fmt.Sscanf(verdict, "by-param:%d", &pi)
+				bad := ""
+				for _, caller := range c.moduleFuncs() {
+					crecv := caller.Signature.Recv()
+					isCtxMethod := crecv != nil && namedTypeName(crecv.Type()) == "Context" && caller.Signature.Results().Len() == 1 && namedTypeName(caller.Signature.Results().At(0).Type()) == "Context"
+					eachInstr(caller, func(ins ssa.Instruction) {
+						cc, ok := ins.(ssa.CallInstruction)
+						if !ok || cc.Common().StaticCallee() != fn || pi >= len(cc.Common().Args) {
+							return
+						}
+						if k, isConst := cc.Common().Args[pi].(*ssa.Const); isConst && k.Value != nil && k.Value.String() == "true" {
+							return
+						}
+						if isCtxMethod {
+							if _, recvIsParam := cc.Common().Args[0].(*ssa.Parameter); recvIsParam {
+								return
+							}
+						}
+						bad = c.P.pos(ins.Pos())
+					})
+				}
+				if bad == "" {
+					r.Discharge(rule, key, c.P.pos(fn.Pos()), "derived context takes the flag from an argument ("+why+"); every caller is a Context method judged through it or passes true")
+				} else {
+					r.Finding(rule, key, bad, "a context is made writable here through "+fn.Name()+" outside the declared escalation point WritableClone")
+				}
+				break
+			}
 			r.Finding(rule, key, c.P.pos(fn.Pos()), "derived context does not carry the DontAutoCreate flag of its source ("+why+")")
 		}
 	}
@@ -217,6 +248,11 @@ func contextFlagTransfer(c *Ctx, fn *ssa.Function, seen map[*ssa.Function]bool) 
 				if _, isParam := fa2.X.(*ssa.Parameter); isParam {
 					return "keeps", "copies DontAutoCreate from the receiver"
 				}
+			}
+		case *ssa.Parameter:
+			// a helper taking the flag as an argument: decided at each of its call sites
+			if i := paramIndex(fn, v); i > 0 {
+				return fmt.Sprintf("by-param:%d", i), "DontAutoCreate = parameter " + v.Name()
 			}
 		}
 		return "unknown", "DontAutoCreate set from a computed value"
@@ -299,6 +335,25 @@ func contextFlagTransfer(c *Ctx, fn *ssa.Function, seen map[*ssa.Function]bool) 
 			if cal != nil && cal.Signature.Recv() != nil && namedTypeName(cal.Signature.Recv().Type()) == "Context" {
 				if _, isParam := x.Call.Args[0].(*ssa.Parameter); isParam {
 					v2, w := contextFlagTransfer(c, cal, seen)
+					if strings.HasPrefix(v2, "by-param:") {
+						var pi int
+						fmt.Sscanf(v2, "by-param:%d", &pi)
+						v2, w = "unknown", "through "+cal.Name()+": flag argument is computed"
+						if pi < len(x.Call.Args) {
+							switch a := x.Call.Args[pi].(type) {
+							case *ssa.Const:
+								if a.Value != nil && a.Value.String() == "true" {
+									v2, w = "sets-true", "DontAutoCreate = true"
+								} else {
+									v2, w = "sets-false", "DontAutoCreate = false"
+								}
+							case *ssa.Parameter:
+								if i := paramIndex(fn, a); i > 0 {
+									v2, w = fmt.Sprintf("by-param:%d", i), "DontAutoCreate = parameter "+a.Name()
+								}
+							}
+						}
+					}
 					note(v2, "through "+cal.Name()+": "+w)
 					return
 				}
@@ -322,7 +377,20 @@ func contextFlagTransfer(c *Ctx, fn *ssa.Function, seen map[*ssa.Function]bool) 
 	if nret == 0 {
 		return "unknown", "no return"
 	}
-	for _, v := range []string{"drops", "sets-false", "unknown", "sets-true", "keeps"} {
+	for _, v := range []string{"drops", "sets-false", "unknown"} {
+		if why, ok := verdicts[v]; ok {
+			return v, why
+		}
+	}
+	for v, why := range verdicts {
+		if strings.HasPrefix(v, "by-param:") {
+			if len(verdicts) > 1 {
+				return "unknown", "flag taken from a parameter on some paths only"
+			}
+			return v, why
+		}
+	}
+	for _, v := range []string{"sets-true", "keeps"} {
 		if why, ok := verdicts[v]; ok {
 			return v, why
 		}
